@@ -148,8 +148,12 @@ func verifC05(c *drv.Ctx) {
 		Outcome: c.Outcome, Fail: c.Fail, Sample: c.Sample, Add: c.Add}
 	cases := 0
 	ex := vs.Run(nil, func(s *vs.Sched) {
+		s.Horizon = 1 << 60 // a sequential enumeration, not an exploration: no step horizon
 		s.RandFn = func(_ string, _ uint64, n uint64) uint64 { return zzref.C05Rand(mode, n) }
 	}, func() { cases = zzref.C05Run(env, "c05tcp", enumerate) })
+	if !ex.MainDone && len(ex.Crashes) == 0 {
+		c.Infra("enumeration did not run to its end (steps=%d livelock=%v deadlock=%v)", ex.Steps, ex.Livelock, ex.Deadlock)
+	}
 	for _, cr := range ex.Crashes {
 		c.Infra("harness crashed under vs.Run: %s\n%s", cr.Value, cr.Stack)
 	}
